@@ -666,7 +666,8 @@ class Program:
     def _resolve_classes(self):
         for ci in self.classes.values():
             ci.bases = []
-            for b in ci.base_exprs:
+            base_exprs = ci.base_exprs or [ast.Name(id="object", ctx=ast.Load())]     # `class C:` is `class C(object):`
+            for b in base_exprs:
                 d = dotted(b)
                 if d is None:
                     ci.bases.append("ext:?")
